@@ -18,11 +18,23 @@ then - tag back in the field - `ndef.octets = M2` on the same NDEF object (or
 after a fresh activation) is cut after every state-changing command.  "The
 previous message" is what the tag really held before the second write (the
 fresh reader's view of the memory the failed write left behind).
+
+Leg `felica-lite`: the sweep for FeliCa Lite / Lite-S tags (vlib.simfelica,
+MACs from vlib.ref_felica) with the two dimensions these products add to
+"any fresh reader": the WRITER is or is not authenticated (Lite-S: mutual
+authentication, every block then goes with a MAC'd write) and the FRESH
+READER looks at the tag directly, or authenticates first (with the tag's
+key, or with a key the tag does not hold) and then reads - on these products
+authentication changes the commands and the code path of the NDEF reader.
 """
+import struct
+
 from hypothesis import strategies as st
 
 import nfc.tag
+import nfc.tag.tt3_sony
 
+from vlib import ref_felica, simfelica, simtags, tagdev, vsched
 from vlib.engine import HarnessError, Leg, Violation, unexpected
 from props import tagcommon as tc
 
@@ -447,6 +459,323 @@ def _prefix(a, b):
     return i
 
 
+# FeliCa Lite / Lite-S: authenticated writers and authenticating readers -----
+LITE_CLS = {"lite": nfc.tag.tt3_sony.FelicaLite,
+            "lites": nfc.tag.tt3_sony.FelicaLiteS}
+LITE_OTHER_KEY = b"not-the-card-key"
+LITE_USER = range(0, 14)              # attribute block + S_PAD1..13
+
+
+def setup():
+    # deterministic authentication challenges (os.urandom inside
+    # nfc.tag.tt3_sony); without a scheduler the time/threading shims are
+    # the real modules
+    vsched.patch_nfc()
+    # pyDes needs ~0.4 ms per DES block: memoise the simulator's pure single
+    # block 3DES inside this process (as C16 does); nfcpy is not touched
+    if not getattr(ref_felica.ede2_encrypt, "memoised", False):
+        import functools
+        cached = functools.lru_cache(maxsize=1 << 16)(ref_felica.ede2_encrypt)
+
+        def ede2_encrypt(k1, k2, block):
+            return cached(bytes(k1), bytes(k2), bytes(block))
+        ede2_encrypt.memoised = True
+        ref_felica.ede2_encrypt = ede2_encrypt
+
+
+def lite_mc(case):
+    """memory configuration block as protect() of the product leaves it for
+    the generated protect_from / read_protect (simfelica docstring)"""
+    mc = bytearray([0xFF, 0xFF, 0xFF, 0x01, 0x07]) + bytearray(11)
+    prot, pf = case["prot"], case["protect_from"]
+    if prot == "open":
+        return bytes(mc)
+    mask = struct.pack("<H", 2 ** 14 - 2 ** pf)
+    if case["prod"] == "lite":
+        mc[0:2] = struct.pack("<H", 0x7FFF ^ (2 ** 14 - 2 ** pf))
+    else:
+        mc[8:10] = mc[10:12] = mask
+        if prot == "rw":
+            mc[6:8] = mask
+        mc[5] = 0x01
+    mc[2] = 0x00
+    return bytes(mc)
+
+
+def lite_sim(case, old):
+    prod = case["prod"]
+    filler = bytes([case["filler"]]) * 16
+    user = dict((n, filler) for n in range(1, 15))
+    user[0] = bytes(simtags.t3_attribute(0x10, case["nbr"], 1, case["nmaxb"],
+                                         0, 1, len(old)))
+    data = old + bytes(-len(old) % 16)
+    for i in range(len(data) // 16):
+        user[1 + i] = data[16 * i:16 * i + 16]
+    kw = dict(key=case["key"], ndef=True, user=user, mc=lite_mc(case))
+    if prod == "lites":
+        cls = simfelica.SimFelicaLiteSCountRC if case["count_rc"] \
+            else simfelica.SimFelicaLiteS
+        return cls(wcnt=case["wcnt"], **kw)
+    return simfelica.SimFelicaLite(**kw)
+
+
+def lite_image(sim):
+    """the non-volatile state: every block but the challenge (RC is lost
+    with the field) and the Lite-S write counter"""
+    return (tuple((n, bytes(sim.mem[n])) for n in sorted(sim.mem)
+                  if n != simfelica.RC), getattr(sim, "wcnt", None))
+
+
+class _Snapshots(object):
+    """a simfelica tag that records its non-volatile state after every
+    command that the tag counted as a write (a power cut after that command
+    leaves exactly this state)"""
+
+    def __init__(self, inner):
+        self.inner = inner
+        self.snaps = [lite_image(inner)]
+
+    def __getattr__(self, name):
+        return getattr(self.inner, name)
+
+    def command(self, data, timeout=None):
+        w = self.inner.writes
+        rsp = self.inner.command(data, timeout)
+        if self.inner.writes != w:
+            self.snaps.append(lite_image(self.inner))
+        return rsp
+
+
+def lite_restore(case, old, image):
+    sim = lite_sim(case, old)
+    mem, wcnt = image
+    for n, data in mem:
+        sim.mem[n] = bytearray(data)
+    if wcnt is not None:
+        sim.wcnt = wcnt
+    sim.reset()
+    return sim
+
+
+def lite_password(case, right=True):
+    """what authenticate() is given: the 16 byte card key (empty = factory
+    key, as documented) or a key the tag does not hold"""
+    if right:
+        return b"" if case["key"] is None and case["empty_pw"] \
+            else (case["key"] or bytes(16))
+    return LITE_OTHER_KEY if case["key"] is None else b""
+
+
+def lite_open(sim, case, how, useed):
+    """fresh frontend, fresh activation, then - as ``how`` says -
+      plain       tag.ndef
+      auth        tag.authenticate(card key), tag.ndef
+      ndef-auth   tag.ndef, tag.authenticate(card key), has_changed (the
+                  documented complete update), tag.ndef
+      auth-other  tag.authenticate(a key the tag does not hold), tag.ndef
+    -> (tag, ndef, authenticate result)"""
+    vsched.seed_urandom(useed)
+    try:
+        clf, tag = tagdev.activate(sim)
+        if not isinstance(tag, LITE_CLS[case["prod"]]):
+            raise HarnessError("%s simulator activated as %r"
+                               % (case["prod"], tag))
+        authed = None
+        if how == "plain":
+            return tag, tag.ndef, None
+        if how == "ndef-auth":
+            ndef = tag.ndef
+            authed = tag.authenticate(lite_password(case))
+            if ndef is not None:
+                ndef.has_changed
+            return tag, tag.ndef, authed
+        authed = tag.authenticate(lite_password(case, how == "auth"))
+        return tag, tag.ndef, authed
+    finally:
+        vsched.seed_urandom(None)
+
+
+def lite_fresh_read(case, old, image, how):
+    """-> (what the library reader delivers | None, raised, authenticated)"""
+    sim = lite_restore(case, old, image)
+    try:
+        tag, ndef, authed = lite_open(sim, case, how, case["useed"] + 1)
+        lib = None if ndef is None or not ndef.is_readable else ndef.octets
+        return lib, None, authed
+    except Exception as e:
+        # a reader that raises did not deliver a message (that reading
+        # must not raise is the matter of C08 / C16)
+        unexpected(e)               # (a harness failure still surfaces)
+        return None, type(e).__name__, None
+
+
+def lite_ref_read(image):
+    mem = dict(image[0])
+    return simtags.t3_ref_read([mem[n] for n in LITE_USER])
+
+
+def run_lite(case, ctx):
+    prod, writer = case["prod"], case["writer"]
+    cap = case["nmaxb"] * 16
+    old = tc.message(min(tc.resolve_len(case["old"], cap), cap),
+                     case["old_seed"])
+    ctx.label("%s:%s:writer-%s" % (prod, case["prot"], writer))
+    ctx.set_class("%s/writer-%s" % (prod, writer))
+    sim = _Snapshots(lite_sim(case, old))
+    try:
+        tag, ndef, wauth = lite_open(sim, case, writer, case["useed"])
+        if ndef is None:
+            ctx.label("writer-finds-no-ndef")
+            return
+        if wauth is False:
+            # not this property's matter (C20 judges authenticate)
+            ctx.label("writer-authentication-failed")
+            return
+        if not ndef.is_writeable:
+            ctx.label("writer-finds-read-only")
+            return
+        if ndef.capacity != cap:
+            raise Violation("capacity-differs", "%d, attribute block says %d "
+                            "blocks" % (ndef.capacity, case["nmaxb"]))
+    except (Violation, HarnessError):
+        raise
+    except Exception as e:
+        raise unexpected(e, "setup-raises")
+    L = min(tc.resolve_len(case["new"], cap), cap)
+    new = tc.message(L, case["new_seed"] ^ 0x80)
+    first = len(sim.snaps) - 1        # writes of the authentication
+    status = "returned"
+    vsched.seed_urandom(case["useed"] + 2)
+    try:
+        ndef.octets = new
+    except nfc.tag.TagCommandError:
+        # the tag refuses a block (a plain writer on a protected tag)
+        status = "error"
+    except Exception as e:
+        raise unexpected(e, "write-raises")
+    finally:
+        vsched.seed_urandom(None)
+    ctx.label("write:" + status)
+    snaps = sim.snaps
+    n = len(snaps) - 1
+    if n != sim.writes:
+        raise HarnessError("snapshot count %d != writes %d" % (n, sim.writes))
+    # harness self check: a real power cut leaves exactly the snapshot
+    k = first + (n - first) // 2
+    sim2 = lite_sim(case, old)
+    sim2.cut_after = k
+    try:
+        tag2, ndef2, _ = lite_open(sim2, case, writer, case["useed"])
+        vsched.seed_urandom(case["useed"] + 2)
+        ndef2.octets = new
+    except Exception:
+        pass
+    finally:
+        vsched.seed_urandom(None)
+    if lite_image(sim2)[0] != snaps[k][0] or (k < n and not sim2.dead):
+        raise HarnessError("cut at %d differs from snapshot" % k)
+    readers = ["plain", "auth"] + ([case["reader"]] if case["reader"] else [])
+    readable_plain = not (prod == "lites" and case["prot"] == "rw")
+    seen = {}
+    inside = False
+    m = n - first
+    if case.get("cuts", "all") == "all" or m <= 8:
+        ks = list(range(0, n + 1))
+        ctx.label("cuts-exhaustive")
+    else:
+        # the authenticated readers pay ~10 ms of DES per block read
+        ks = sorted(set(list(range(0, first + 4)) + list(range(n - 2, n + 1))
+                        + [first + 4 + (m - 7) // 3,
+                           first + 4 + 2 * (m - 7) // 3]))
+        ctx.label("cuts-edges+sampled")
+    for k in ks:
+        key = snaps[k][0]
+        if key not in seen:
+            seen[key] = [("reference-reader", lite_ref_read(snaps[k]), True)]
+            for how in readers:
+                lib, raised, authed = lite_fresh_read(case, old, snaps[k], how)
+                if raised:
+                    ctx.label("reader-raised:" + raised)
+                if how != "plain":
+                    # (the result of authenticate is C20's matter)
+                    ctx.label("reader-%s:authenticate->%s" % (how, authed))
+                # can this reader read the tag at all?
+                able = raised is None and (authed is True or readable_plain)
+                seen[key].append(("library-reader:" + how, lib, able))
+                if authed and snaps[k][0] not in (snaps[0][0], snaps[n][0]):
+                    inside = True
+        for who, x, able in seen[key]:
+            c = classify(x, old, new)
+            ctx.set_class("%s/%s" % (prod, who))
+            if k <= first and able and c != "old" and \
+                    not (old == b"" and c == "empty") and \
+                    not (old == new and c == "new"):
+                raise Violation("cut-at-0-not-old", "%s sees %s before the "
+                                "first command of the write" % (who, c))
+            if k == n and status == "returned" and able and c != "new" and \
+                    not (new == b"" and c == "empty") and \
+                    not (old == new and c == "old"):
+                raise Violation("complete-write-not-new",
+                                "%s sees %s after all %d commands"
+                                % (who, c, n))
+            if c == "MIXTURE":
+                raise Violation(
+                    "mixture", "%s after cut %d of %d (%s writer, %d of the "
+                    "commands belong to its authentication) sees %d bytes "
+                    "(old %d, new %d), common prefix with new %d, with old %d"
+                    % (who, k, n, writer, first, len(x), len(old), len(new),
+                       _prefix(x, new), _prefix(x, old)))
+            ctx.label("%s:%s" % (who.split(":")[-1], c))
+    ctx.set_class("%s/writer-%s" % (prod, writer))
+    if n - first >= 3 and old != new and L > 0 and inside:
+        ctx.nontrivial()
+    ctx.note({"writes": n, "of-authentication": first, "cuts": len(ks),
+              "old": len(old),
+              "new": L, "status": status, "readers": readers})
+
+
+def lite_strategy(tier):
+    lens = st.one_of(
+        st.sampled_from([["abs", n] for n in (0, 1, 5, 15, 16, 17, 32, 40,
+                                              100, 192, 207, 208)] +
+                        [["cap", 0], ["cap", -1], ["cap", -16], ["pm", 500]]),
+        st.tuples(st.just("abs"), st.integers(0, 208)))
+    short = st.one_of(st.sampled_from([["abs", n] for n in (1, 5, 16, 17,
+                                                            32, 40, 48)]),
+                      st.tuples(st.just("abs"), st.integers(1, 64)))
+    key16 = st.binary(min_size=16, max_size=16)
+
+    @st.composite
+    def s(draw):
+        prod = draw(st.sampled_from(["lites", "lites", "lite"]))
+        prot = draw(st.sampled_from(
+            ["open", "open", "w", "rw"] if prod == "lites"
+            else ["open", "open", "open", "w"]))
+        return {
+            "prod": prod, "prot": prot,
+            # protect(protect_from=0) makes the NDEF area read-only: no writer
+            "protect_from": draw(st.sampled_from([1, 1, 2, 3, 5, 13, 14])),
+            "key": draw(st.one_of(st.none(), key16, key16)),
+            "empty_pw": draw(st.booleans()),
+            "count_rc": draw(st.booleans()),
+            "wcnt": draw(st.sampled_from([0, 0, 1, 255, 256, 0xFFFF,
+                                          0x123456])),
+            "nmaxb": draw(st.sampled_from([13, 13, 13, 13, 12, 8, 4, 2, 1])),
+            "nbr": draw(st.sampled_from([4, 4, 4, 3, 2, 1])),
+            "filler": draw(st.sampled_from([0x00, 0xFF, 0xA5])),
+            # every fresh reader of an intermediate image reads the blocks
+            # of the old length: mostly short old messages
+            "old": draw(st.one_of(short, short, lens)),
+            "old_seed": draw(st.integers(0, 255)),
+            "new": draw(lens), "new_seed": draw(st.integers(0, 255)),
+            "cuts": "all" if tier == "thorough" else "edges",
+            "writer": draw(st.sampled_from(["plain", "auth", "auth",
+                                            "ndef-auth"])),
+            "reader": draw(st.sampled_from([None, "ndef-auth", "auth-other"])),
+            "useed": draw(st.integers(0, 9999))}
+    return s()
+
+
 def _leg(name, desc, quick, thorough, lens=None):
     return Leg(name, run=run,
                gen=lambda tier: case_strategy(desc, tier, lens),
@@ -488,6 +817,29 @@ def after_failed_strategy(tier):
 
 
 LEGS = [
+    # (the slowest shards first: the job pool drains evenly)
+    Leg("felica-lite", run=run_lite, gen=lite_strategy, quick=200,
+        thorough=4000, shards_quick=10, shards_thorough=16, nt_floor=0.15,
+        rule="FeliCa Lite / Lite-S tag (card key factory or generated; open, "
+             "write protected or - Lite-S - read+write protected from block "
+             "1..14 on as protect() configures it; Nmaxb 1..13, Nbr 1..4, "
+             "Lite-S write counter value and RC counting policy) x old x new "
+             "message (the old one short in 2 of 3 cases) x WRITER {plain, "
+             "authenticate then tag.ndef, tag.ndef then authenticate}; every "
+             "cut point k=0..n of the state changing commands, those of the "
+             "authentication included (quick tier, more than 8 commands in "
+             "the write: the first 4, the last 3 and 2 in between), is "
+             "read by the reference reader and by FRESH READERS: plain, one "
+             "that AUTHENTICATES FIRST with the card key, and a third one "
+             "out of {none, tag.ndef / authenticate / has_changed, "
+             "authenticate with a key the tag does not hold}.  Oracle as "
+             "for the other legs (old / new / empty / nothing readable, "
+             "never a mixture; before the first command of the write: old; "
+             "after the last one of a write that returned: new - for every "
+             "reader that may read the tag).  non-trivial = the write has "
+             ">= 3 state changing commands, old != new, new non-empty and "
+             "an authenticated fresh reader (authenticate returned True) "
+             "looked at an image that is neither the first nor the last."),
     _leg("t2t", st.one_of(t2t_big(), t2t_big(), t2t_desc()), 400, 4000),
     _leg("t1t", st.one_of(t1t_big(), t1t_big(), tc.t1t_desc()), 300, 4000),
     _leg("t3t", tc.t3t_desc("t3t"), 300, 4000),
